@@ -52,8 +52,9 @@ META = {
         "R4: a manually numbered footnote gets its label as first possible child, an auto footnote is registered with "
         "note_autofootnote instead (docutils inserts the label at index 0), never both; the label text is the footnote's name; all "
         "registry calls are dominated by a not-a-duplicate test on the name (document.nameids, or the footnote registries the call "
-        "registers into; any(...) / loop / one-return helper / membership in a set of the registered names, with the same "
-        "normalisation on both sides or none); document.footnotes/autofootnotes/symbol_footnotes are only "
+        "registers into; any(...) over `a + b` or itertools.chain(a, b) / loop / one-return helper / membership in a set of the "
+        "registered names, with the same normalisation on both sides or none; the element test may be a disjunction of "
+        "memberships, a conjunction that narrows it is a violation); document.footnotes/autofootnotes/symbol_footnotes are only "
         "reordered by MyST code, never filtered, truncated or emptied. "
         "R5: in transforms.py / myst_refs.py an existing node (loop variable over the tree) is re-attached only after being removed "
         "from its old parent, at most once; children moved out of a node (X.children, followed through helpers) are moved at most "
@@ -1120,10 +1121,14 @@ def _dup_test(t: ast.expr, pol: bool, names_src: list[str], needed: set[str], fi
             return "none", ""
         gen = ge.generators[0]
         elt = ge.elt
-        if gen.ifs or not (isinstance(elt, ast.Compare) and len(elt.ops) == 1 and isinstance(elt.ops[0], ast.In) and unparse(elt.left) in names_src and isinstance(gen.target, ast.Name)):
+        if gen.ifs or not isinstance(gen.target, ast.Name):
             return "unknown", f"`{short(t, 60)}`"
         tgt = gen.target.id
-        looked = {x.slice.value for x in ast.walk(elt.comparators[0]) if isinstance(x, ast.Subscript) and isinstance(x.value, ast.Name) and x.value.id == tgt and isinstance(x.slice, ast.Constant)}
+        looked = _name_membership(elt, names_src, tgt)
+        if looked is None and isinstance(elt, ast.BoolOp) and isinstance(elt.op, ast.And) and any(_name_membership(v, names_src, tgt) is not None for v in elt.values):
+            return "weak", f"the duplicate test `{short(t, 60)}` only rejects a footnote with the same name when a further condition holds"
+        if looked is None:
+            return "unknown", f"`{short(t, 60)}`"
         if "names" not in looked:
             return "weak", f"the duplicate test `{short(t, 60)}` does not look at the registered footnotes' names"
         it = gen.iter
@@ -1173,6 +1178,19 @@ def _helper_predicate_args(fi: FunctionInfo, call: ast.Call):
     return callee, body[0].value, pmap
 
 
+def _name_membership(e: ast.expr, names_src: list[str], tgt: str) -> set | None:
+    """Attribute keys of the registered footnote ``tgt`` in which ``e`` searches the new footnote's name, when ``e``
+    being false implies the name is in none of them: `name in tgt[k] (+ tgt[k2])`, or a disjunction with at least one
+    such membership (further disjuncts only make the test reject more).  None if ``e`` is not of that form."""
+    if isinstance(e, ast.Compare) and len(e.ops) == 1 and isinstance(e.ops[0], ast.In) and unparse(e.left) in names_src:
+        return {x.slice.value for x in ast.walk(e.comparators[0]) if isinstance(x, ast.Subscript) and isinstance(x.value, ast.Name) and x.value.id == tgt and isinstance(x.slice, ast.Constant)}
+    if isinstance(e, ast.BoolOp) and isinstance(e.op, ast.Or):
+        parts = [_name_membership(v, names_src, tgt) for v in e.values]
+        if any(p is not None for p in parts):
+            return set().union(*(p for p in parts if p is not None))
+    return None
+
+
 def _dup_loop(cfg, st, names_src: list[str], needed: set[str]) -> tuple[str, str]:
     """Loop form of the duplicate test: `for fn in <registries>: if name in fn["names"]...: ...; return`
     completed (not left by the return) before ``st`` executes."""
@@ -1183,15 +1201,15 @@ def _dup_loop(cfg, st, names_src: list[str], needed: set[str]) -> tuple[str, str
         tgt = lp.target.id
         for x in ast.walk(lp):
             if isinstance(x, ast.If) and x.body and isinstance(x.body[-1], (ast.Return, ast.Raise)):
-                for t in ast.walk(x.test):
-                    if isinstance(t, ast.Compare) and len(t.ops) == 1 and isinstance(t.ops[0], ast.In) and unparse(t.left) in names_src:
-                        looked = {y.slice.value for y in ast.walk(t.comparators[0]) if isinstance(y, ast.Subscript) and isinstance(y.value, ast.Name) and y.value.id == tgt and isinstance(y.slice, ast.Constant)}
-                        regs = {y.attr for y in ast.walk(lp.iter) if isinstance(y, ast.Attribute) and y.attr in FOOTNOTE_REGISTRIES}
-                        if "names" in looked and needed <= regs and isinstance(x.test, ast.Compare):
-                            return "ok", f"loop over document.{'/'.join(sorted(regs))} returns on a footnote with the same name"
-                        if "names" in looked and not needed <= regs and isinstance(x.test, ast.Compare):
-                            return "weak", f"the duplicate loop only searches document.{'/'.join(sorted(regs)) or '?'} but the footnote is registered in document.{'/'.join(sorted(needed - regs))}"
-                        return "unknown", f"loop test `{short(x.test, 50)}`"
+                if not any(isinstance(t, ast.Compare) and len(t.ops) == 1 and isinstance(t.ops[0], ast.In) and unparse(t.left) in names_src for t in ast.walk(x.test)):
+                    continue
+                looked = _name_membership(x.test, names_src, tgt)
+                regs = {y.attr for y in ast.walk(lp.iter) if isinstance(y, ast.Attribute) and y.attr in FOOTNOTE_REGISTRIES}
+                if looked is not None and "names" in looked and needed <= regs:
+                    return "ok", f"loop over document.{'/'.join(sorted(regs))} returns on a footnote with the same name"
+                if looked is not None and "names" in looked:
+                    return "weak", f"the duplicate loop only searches document.{'/'.join(sorted(regs)) or '?'} but the footnote is registered in document.{'/'.join(sorted(needed - regs))}"
+                return "unknown", f"loop test `{short(x.test, 50)}`"
     return "none", ""
 
 
@@ -3154,6 +3172,15 @@ def mutants(corpus: Corpus):
     f = base.func("DocutilsRenderer.render_footnote_reference")
     it = find_node(f, lambda n: isinstance(n, ast.BinOp) and isinstance(n.op, ast.Add) and unparse(n.right).endswith(".autofootnotes") and unparse(n.left).endswith(".footnotes"))
     add("c03-duplicate-test-misses-autofootnotes", "C03.R4", base, it, unparse(it.left) if it is not None else "", "not-a-duplicate")
+    f = base.func("DocutilsRenderer.render_footnote_reference")
+    anyc = find_node(f, lambda n: isinstance(n, ast.Call) and dotted(n.func) == "any" and n.args and isinstance(n.args[0], ast.GeneratorExp) and "names" in unparse(n.args[0].elt))
+    if anyc is not None:
+        elt = anyc.args[0].elt
+        tgt_ = unparse(anyc.args[0].generators[0].target)
+        add("c03-duplicate-test-looks-at-dupnames-only", "C03.R4", base, elt, f"target in {tgt_}['dupnames']", "not-a-duplicate")
+        add("c03-duplicate-test-narrowed-by-extra-condition", "C03.R4", base, elt, f"({unparse(elt)}) and bool({tgt_}.get('auto'))", "not-a-duplicate")
+    else:
+        out.append(("c03-duplicate-test-looks-at-dupnames-only", "any(...) duplicate test not found"))
     f = tf.func("SortFootnotes.apply")
     st = find_node(f, lambda n: isinstance(n, ast.Expr) and isinstance(n.value, ast.Call) and unparse(n.value.func).endswith(".autofootnotes.sort"))
     if st is not None:
